@@ -66,12 +66,12 @@ Definition ex_sched : list label :=
   [LRunCall; LRunBegin; LBootLock ORun; LCb ORun (CbSome [(0, 0)]%N); LBootLaunch ORun; LToRunning;
    LKRun 0 0%N;
    LReloadCall 0; LRlLock 0; LCb (ORel 0) (CbSome [(0, 1); (1, 1)]%N);
-   LStopBegin (ORel 0); LWCall 0 0%N; LKExit 0 0%N None; LKSend 0; LWUnblock 0; LWRet 0 0%N;
+   LStopBegin (ORel 0); LWCall 0 0%N; LKExit 0 0%N None; LWUnblock 0; LWRet 0 0%N;
    LStopJoin (ORel 0); LRlSetCfg 0; LBootLock (ORel 0);
    LStopApi 0; LSSignal 0; LSelStop; LTransIf;
    LBootLaunch (ORel 0); LRlFinish 0; LRlRet 0;
    LStopBegin ORun; LWCall 1 1%N; LWCall 2 0%N; LKRun 1 0%N; LKRun 2 1%N;
-   LKExit 1 0%N None; LKExit 2 1%N (Some Canceled); LKSend 1; LKSend 2;
+   LKExit 1 0%N None; LKExit 2 1%N (Some Canceled);
    LWUnblock 1; LWUnblock 2; LWRet 1 1%N; LWRet 2 0%N; LStopJoin ORun; LToStopped; LRunExit;
    LRunRet internal_err; LSRet 0].
 
